@@ -115,6 +115,18 @@ def mutate(obj, rng, depth=0):
     return False
 
 
+def mutate_all(obj, depth=0):
+    """damage in every container of a returned object (anything it shares with the library's own state is hit)"""
+    if isinstance(obj, dict):
+        for v in list(obj.values()):
+            mutate_all(v, depth + 1)
+        obj['__mutated__'] = depth
+    elif isinstance(obj, list):
+        for v in obj:
+            mutate_all(v, depth + 1)
+        obj.append('MUTATED')
+
+
 NAMES = ['6-31G', 'cc-pVDZ', 'def2-SVP', 'STO-3G', 'LANL2DZ', 'aug-cc-pVDZ', 'pcseg-0']
 FAMS = ['pople', 'dunning', 'ahlrichs', 'sto', 'jensen']
 FLAGS = ['uncontract_general', 'uncontract_spdf', 'uncontract_segmented', 'make_general', 'optimize_general', 'remove_free_primitives']
@@ -123,7 +135,8 @@ FLAGS = ['uncontract_general', 'uncontract_spdf', 'uncontract_segmented', 'make_
 def random_call(rng):
     """a call on the public / memoised API with a random argument spelling"""
     dd = os.path.join(paths.REPO, 'basis_set_exchange', 'data')
-    ddv = rng.choice([None, dd])
+    # the same directory under several spellings: each spelling is a different argument, hence a cold key (a cache miss)
+    ddv = rng.choice([None, dd, dd, dd + '/', dd + '//', dd + '/.'])
     c = rng.randrange(12)
     if c <= 3:
         kw = {f: True for f in FLAGS if rng.random() < 0.25}
@@ -195,8 +208,12 @@ def history(ctx, seed, ref):
                 changed = True
                 continue
             if c < 0.3 and returned:
-                mutate(rng.choice(returned), rng)
-                ops.append(('mutate', ))
+                if rng.random() < 0.4:
+                    mutate_all(returned[-1])
+                    ops.append(('mutate-all-of-last-result', ))
+                else:
+                    mutate(rng.choice(returned), rng)
+                    ops.append(('mutate', ))
                 changed = True
                 continue
             name, args, kw = random_call(rng)
